@@ -6,8 +6,10 @@ grain of file-system steps; properties StageMonotone, SucceededIsFinal, SizeMono
 status rewrite and at every report to a client), CancelStops, ReleaseRemoves, UniqueIDs (second configuration: two ids,
 forced collisions).  The variant without the repaired cancel must violate SucceededIsFinal.
 Conformance (engine E3, real receptor binary): seeded concurrent client histories (3 clients; submit of finishing, long,
-failing and instant payloads, status, list, cancel, release, force-release, results; on finished, cancelled, unknown and
-released units), a burst of concurrent submits, and the TLC-found cancel-vs-completion schedule replayed with SIGSTOP/SIGCONT.
+failing and instant command payloads, remote units executed by a second daemon, in-process units of a harness-built daemon
+variant; status, list, cancel, release, force-release, results; on finished, cancelled, unknown and released units), a burst of
+concurrent submits, release-then-requery (also with an undeletable status file), list-all raced against releases, and the
+TLC-found cancel-vs-completion schedule replayed with SIGSTOP/SIGCONT.
 Every sf_apply hook event (old state/size -> new state/size, from daemon AND runner processes) and every control-socket
 answer is checked; /proc decides CancelStops, the data directory ReleaseRemoves; TLC validates every unit's stream of status
 rewrites against WorkUnitTrace.tla (reusing WorkUnit's update table and step properties) and its status-file event stream
@@ -41,12 +43,13 @@ def run(tier, seed, replay=None):
 
     rec = vlib.build_receptor()
     vd = vlib.build_harness("vd")
+    inproc = vlib.build_harness("receptor-inproc")   # cmd/receptor-cl + one in-process work type on BaseWorkUnit
     if replay:
         seed = int(json.load(open(replay))["replay"].get("seed", seed))
         if seed >= 100:
             seed //= 100
     hist, ops = (3, 14) if tier == "quick" else (16, 30)
-    res = vlib.harness_json(vd, ["c13", "-bin", rec, "-dir", os.path.join(wd, "runs"), "-seed", str(seed), "-histories", str(hist), "-ops", str(ops)],
+    res = vlib.harness_json(vd, ["c13", "-bin", rec, "-dir", os.path.join(wd, "runs"), "-seed", str(seed), "-histories", str(hist), "-ops", str(ops), "-inproc-bin", inproc],
                             wd, timeout=3000, name="vd_c13")
     if res.get("inconclusive"):
         raise vlib.Inconclusive("; ".join(res["inconclusive"][:5]))
@@ -93,7 +96,9 @@ def run(tier, seed, replay=None):
         "variants_violated": variants, "witnesses": wit, "notes": v.notes,
     }
     return v.finish("model_checking", cov, assumptions=[
-        "local command units (bash payload on stdin); in-process unit types and remote units are not driven",
+        "unit kinds driven: local command units (bash payload on stdin), remote units between two real daemons (even-numbered histories), and one in-process unit type "
+        "(a Go WorkUnit on BaseWorkUnit registered by harness/cmd/receptor-inproc, odd-numbered histories); kubernetes/python units are not driven",
+        "'release removes' is also checked some time after the answer, for never-started remote units, and with an undeletable status file (chattr +i); list-all is raced against releases",
         "reported-status monotonicity is checked per client session (answers of different sessions are not ordered against each other)",
         "CancelStops is decided on the runner pid and the payload pid (direct child of the runner); grandchildren of the payload are outside the statement",
         "WorkUnitTrace.tla validates the stream of status rewrites (sf_apply: continuity, each rewrite is one of WorkUnit's updates, step properties); StatusFileTrace.tla the lock discipline; "
